@@ -673,9 +673,12 @@ def oracle(plan, obs):
                 if len(edges) != len(co) + 1:
                     add("heatmap-mesh-coordinates", f"{where}: {len(edges)} {axis} edges for {len(co)} coordinates")
                     continue
-                half = sum(abs(a - b) for a, b in zip(co[:-1], co[1:])) / (len(co) - 1) / 2
+                # (ascending or descending coordinates: quad t lies around coordinate t, half the mean spacing to
+                #  either side, and the quads follow each other in the coordinate's direction)
+                half = (co[-1] - co[0]) / (len(co) - 1) / 2
                 scale = max(1.0, max(abs(v) for v in co))
-                if any(abs(edges[t] + half - co[t]) > 1e-9 * scale for t in range(len(co))):
+                if any(abs(edges[t] + half - co[t]) > 1e-9 * scale for t in range(len(co))) \
+                        or abs(edges[-1] - half - co[-1]) > 1e-9 * scale:
                     add("heatmap-mesh-coordinates", f"{where}: {axis} edges {edges} do not sit on the coordinates {co}")
             # colours: the chosen map at the normalised value (finite range of the data or vmin/vmax)
             import matplotlib.colors as mc
